@@ -23,6 +23,12 @@ type c04case struct {
 	Arrival    []int  `json:"arrival"` // delivery order of the batch numbers
 	Workers    int    `json:"workers"` // formatting workers (1 => deterministic arrival)
 	Compressed bool   `json:"compressed"`
+	Bytes      []int  `json:"bytes"`    // if set: batch i holds one record sized so that its formatted chunk has exactly bytes[i] bytes (0: empty batch)
+	Rich       bool   `json:"rich"`     // records carry definitions / attributes with quotes, commas, newlines, leading blanks, non-ASCII text
+	Slow       int    `json:"slow_ms"`  // the sink sleeps that long in every Write and in Close (makes the completion order observable)
+	Ctl        bool   `json:"ctl"`      // with rich: texts holding a control character or a backslash followed by 'u' (JSONRecord's unescaping step)
+	WantRecs   bool   `json:"want_recs"` // report the records behind the chunks (always done for rich cases)
+	NoClose    bool   `json:"no_close"` // OptionDontCloseFile: every byte must still reach the sink (flushed), which is not closed
 }
 
 type c04obs struct {
@@ -39,6 +45,11 @@ type c04obs struct {
 	// observation only (not part of C04): was the sink already closed when the iterator returned by
 	// the writer reported its end? (the commands wait for obiiter.WaitForLastPipe, not for this)
 	ClosedAtIterEnd bool `json:"closed_at_iter_end"`
+	// the records behind the chunks (round 2: FormatJSONBatch / FormatCVSBatch are modelled)
+	Recs    [][]string   `json:"recs,omitempty"`    // json: hex of JSONRecord(s) per batch, per record
+	Fields  [][][]string `json:"fields,omitempty"`  // csv: hex of the fields of CSVRecord(s) per batch, per record
+	HdrFlds []string     `json:"hdr_fields"`        // csv: hex of the fields of CSVHeader
+	FChunks []string     `json:"fchunks,omitempty"` // csv: hex of FormatCVSBatch(batch i) under its true number (header inside batch 0)
 }
 
 type c04sink struct {
@@ -47,9 +58,13 @@ type c04sink struct {
 	closes int
 	late   int
 	done   chan struct{}
+	slow   time.Duration
 }
 
 func (s *c04sink) Write(p []byte) (int, error) {
+	if s.slow > 0 {
+		time.Sleep(s.slow)
+	}
 	s.mu.Lock()
 	defer s.mu.Unlock()
 	if s.closes > 0 {
@@ -60,6 +75,9 @@ func (s *c04sink) Write(p []byte) (int, error) {
 }
 
 func (s *c04sink) Close() error {
+	if s.slow > 0 {
+		time.Sleep(s.slow)
+	}
 	s.mu.Lock()
 	defer s.mu.Unlock()
 	s.closes++
@@ -72,29 +90,69 @@ func (s *c04sink) Close() error {
 var c04poisoned = false
 var c04hangs = 0 // after a few hangs the remaining cases are not run (fail fast)
 
-func c04batch(w string, b, n, order int) obiiter.BioSequenceBatch {
+// texts that exercise the quoting rules of encoding/csv and the string escapes of the JSON encoder
+var c04nasty = []string{
+	"plain", "he said \"hi\"", "a,b", " lead", "line\nbreak", "tab\there", "\\.", "\u00e9t\u00e9 \u2603", "\u00a0nbsp", "",
+	"back\\slash", "cr\rlf", "a<b>&c", "trail ", "\"", ",", "\t", "x\"\"y", "{\"k\":1}", "[1,2]", "\u2028sep", "\u3000wide",
+}
+
+var c04ctl = []string{"C:\\users\\me", "ctl\x01char", "esc\\u0041"}
+
+func c04batchN(c c04case, b, n, order int, seqlen int, idpad int) obiiter.BioSequenceBatch {
+	w := c.Writer
 	sl := make(obiseq.BioSequenceSlice, 0, n)
 	for i := 0; i < n; i++ {
 		id := fmt.Sprintf("b%dr%d", b, i)
-		sq := []byte("acgtacgt")[:1+(b+i)%3]
+		for k := 0; k < idpad; k++ {
+			id += "x"
+		}
+		var sq []byte
+		if seqlen > 0 {
+			sq = make([]byte, seqlen)
+			for k := range sq {
+				sq[k] = "acgt"[(k+b+i)%4]
+			}
+		} else {
+			sq = []byte("acgtacgt")[:1+(b+i)%3]
+		}
 		var s *obiseq.BioSequence
 		if w == "fastq" {
 			q := make([]byte, len(sq))
 			for k := range q {
-				q[k] = byte(20 + k)
+				q[k] = byte(20 + k%20)
 			}
 			s = obiseq.NewBioSequenceWithQualities(id, sq, "", q)
 		} else {
 			s = obiseq.NewBioSequence(id, sq, "")
+		}
+		if c.Rich {
+			k := (3*b + i) % len(c04nasty)
+			s.SetDefinition(c04nasty[k])
+			if c.Ctl {
+				s.SetDefinition(c04ctl[(b+i)%len(c04ctl)])
+			}
+			s.SetAttribute("k", c04nasty[(k+7)%len(c04nasty)])
+			s.SetAttribute("n", b*10+i)
+			if (b+i)%2 == 0 {
+				s.SetAttribute("m", map[string]int{"x y": i, "q\"": b})
+			}
 		}
 		sl = append(sl, s)
 	}
 	return obiiter.MakeBioSequenceBatch("verif", order, sl)
 }
 
-func c04format(w string, batch obiiter.BioSequenceBatch) []byte {
-	opt := obiformats.MakeOptions(nil)
-	switch w {
+func c04opts(c c04case) []obiformats.WithOption {
+	opts := []obiformats.WithOption{}
+	if c.Rich && c.Writer == "csv" {
+		opts = append(opts, obiformats.CSVDefinition(true), obiformats.CSVCount(true), obiformats.CSVKeys([]string{"k", "n", "absent"}))
+	}
+	return opts
+}
+
+func c04format(c c04case, batch obiiter.BioSequenceBatch) []byte {
+	opt := obiformats.MakeOptions(c04opts(c))
+	switch c.Writer {
 	case "fasta":
 		return obiformats.FormatFastaBatch(batch, opt.FormatFastSeqHeader(), false).Bytes()
 	case "fastq":
@@ -105,6 +163,54 @@ func c04format(w string, batch obiiter.BioSequenceBatch) []byte {
 		return obiformats.FormatCVSBatch(batch, opt)
 	}
 	return nil
+}
+
+// c04plan: (records, sequence length, id padding) of batch b. With c.Bytes the single record of the
+// batch is sized so that the chunk formatted under the true batch number has exactly c.Bytes[b] bytes.
+type c04shape struct{ n, seqlen, idpad int }
+
+func c04plan(c c04case, b int) (c04shape, error) {
+	if len(c.Bytes) == 0 {
+		return c04shape{c.Sizes[b], 0, 0}, nil
+	}
+	target := c.Bytes[b]
+	if target == 0 {
+		return c04shape{0, 0, 0}, nil
+	}
+	sh := c04shape{1, 1, 0}
+	for it := 0; it < 40; it++ {
+		got := len(c04format(c, c04batchN(c, b, 1, b, sh.seqlen, sh.idpad)))
+		if got == target {
+			return sh, nil
+		}
+		d := target - got
+		if c.Writer == "fastq" {
+			if d >= 2 || d <= -2 {
+				sh.seqlen += d / 2
+			} else if d == 1 {
+				sh.idpad++
+			} else {
+				sh.seqlen--
+				sh.idpad++
+			}
+		} else if d == 1 && it > 3 {
+			sh.idpad++ // a fold boundary of the FASTA body was crossed
+		} else {
+			sh.seqlen += d
+		}
+		if sh.seqlen < 1 {
+			return sh, fmt.Errorf("chunk of %d bytes is not reachable", target)
+		}
+	}
+	return sh, fmt.Errorf("chunk of %d bytes is not reachable", target)
+}
+
+func c04hexs(xs []string) []string {
+	r := make([]string, len(xs))
+	for i, x := range xs {
+		r[i] = hex.EncodeToString([]byte(x))
+	}
+	return r
 }
 
 func c04run(c c04case) (o c04obs) {
@@ -119,27 +225,60 @@ func c04run(c c04case) (o c04obs) {
 	}()
 	o.Kind = "ok"
 	n := len(c.Sizes)
+	if len(c.Bytes) > 0 {
+		n = len(c.Bytes)
+	}
+	shapes := make([]c04shape, n)
+	for b := 0; b < n; b++ {
+		sh, err := c04plan(c, b)
+		if err != nil {
+			o.Kind, o.Err = "skip", err.Error()
+			return
+		}
+		shapes[b] = sh
+	}
+	mk := func(b, order int) obiiter.BioSequenceBatch {
+		return c04batchN(c, b, shapes[b].n, order, shapes[b].seqlen, shapes[b].idpad)
+	}
+	fopt := obiformats.MakeOptions(c04opts(c))
 	// the chunks the theorem speaks about: the formatted bytes of every batch
 	for b := 0; b < n; b++ {
+		wantRecs := c.Rich || c.WantRecs
 		if c.Writer == "csv" {
 			// rows only: format under a non-zero batch number
-			o.Chunks = append(o.Chunks, hex.EncodeToString(c04format(c.Writer, c04batch(c.Writer, b, c.Sizes[b], b+1))))
+			o.Chunks = append(o.Chunks, hex.EncodeToString(c04format(c, mk(b, b+1))))
+			if wantRecs {
+				o.FChunks = append(o.FChunks, hex.EncodeToString(c04format(c, mk(b, b))))
+			}
+			fl := [][]string{}
+			for _, s := range mk(b, b).Slice() {
+				fl = append(fl, c04hexs(obiformats.CSVRecord(s, fopt)))
+			}
+			o.Fields = append(o.Fields, fl)
 		} else {
-			o.Chunks = append(o.Chunks, hex.EncodeToString(c04format(c.Writer, c04batch(c.Writer, b, c.Sizes[b], b))))
+			o.Chunks = append(o.Chunks, hex.EncodeToString(c04format(c, mk(b, b))))
 		}
-		for i := 0; i < c.Sizes[b]; i++ {
-			o.Ids = append(o.Ids, fmt.Sprintf("b%dr%d", b, i))
+		if c.Writer == "json" && wantRecs {
+			rl := []string{}
+			for _, s := range mk(b, b).Slice() {
+				rl = append(rl, hex.EncodeToString(obiformats.JSONRecord(s)))
+			}
+			o.Recs = append(o.Recs, rl)
+		}
+		for _, s := range mk(b, b).Slice() {
+			o.Ids = append(o.Ids, s.Id())
 		}
 	}
 	if c.Writer == "csv" {
-		o.Header = hex.EncodeToString(c04format("csv", c04batch("csv", 0, 0, 0)))
+		o.Header = hex.EncodeToString(c04format(c, c04batchN(c, 0, 0, 0, 0, 0)))
+		o.HdrFlds = c04hexs(obiformats.CSVHeader(fopt))
 	}
 
-	sink := &c04sink{done: make(chan struct{})}
+	sink := &c04sink{done: make(chan struct{}), slow: time.Duration(c.Slow) * time.Millisecond}
 	input := obiiter.MakeIBioSequence()
 	batches := make([]obiiter.BioSequenceBatch, n)
 	for b := 0; b < n; b++ {
-		batches[b] = c04batch(c.Writer, b, c.Sizes[b], b)
+		batches[b] = mk(b, b)
 	}
 	go func() {
 		for _, b := range c.Arrival {
@@ -147,8 +286,12 @@ func c04run(c c04case) (o c04obs) {
 		}
 		input.Close()
 	}()
-	opts := []obiformats.WithOption{obiformats.OptionsParallelWorkers(c.Workers), obiformats.OptionCloseFile(),
-		obiformats.OptionsCompressed(c.Compressed)}
+	opts := append(c04opts(c), obiformats.OptionsParallelWorkers(c.Workers), obiformats.OptionsCompressed(c.Compressed))
+	if c.NoClose {
+		opts = append(opts, obiformats.OptionDontCloseFile())
+	} else {
+		opts = append(opts, obiformats.OptionCloseFile())
+	}
 	var res obiiter.IBioSequence
 	var err error
 	switch c.Writer {
@@ -178,7 +321,7 @@ func c04run(c c04case) (o c04obs) {
 	case <-tmo:
 		o.Kind, o.Err, c04poisoned = "hang", "result iterator never finished", true
 	}
-	if o.Kind == "ok" {
+	if o.Kind == "ok" && !c.NoClose {
 		select {
 		case <-sink.done:
 		case <-tmo:
